@@ -165,9 +165,9 @@ def audit(module, thorough):
     txt = p.stdout + p.stderr
     ax = {}
     problems = []
-    for m in re.finditer(r"'([^']+)' depends on axioms: \[([^\]]*)\]", txt, flags=re.S):
+    for m in re.finditer(r"^'([^\n]+?)' depends on axioms: \[([^\]]*)\]", txt, flags=re.M):
         ax[m.group(1)] = [a.strip() for a in m.group(2).replace("\n", " ").split(",") if a.strip()]
-    for m in re.finditer(r"'([^']+)' does not depend on any axioms", txt):
+    for m in re.finditer(r"^'([^\n]+?)' does not depend on any axioms", txt, flags=re.M):
         ax[m.group(1)] = []
     for n in names:
         if n not in ax:
@@ -330,7 +330,8 @@ def main():
     try:
         # ---- BUILD
         libs = {}
-        for hz in cfgp.get("harness", []):
+        harnesses = [hz for hz in cfgp.get("harness", []) if tier in hz.get("tiers", ["quick", "thorough"])]
+        for hz in harnesses:
             key = (hz["cfg"], hz.get("cache_size"))
             if key not in libs:
                 libs[key] = build_lib(hz["cfg"], hz.get("cache_size"))
@@ -380,7 +381,7 @@ def main():
         corr = {"cases": 0, "disagreements": 0, "stats": {}, "first_disagreements": []}
         all_fails = []
         samples = []
-        for hz in cfgp.get("harness", []):
+        for hz in harnesses:
             lib = libs[(hz["cfg"], hz.get("cache_size"))]
             exe = build_harness(hz["src"], hz["cfg"], lib, hz.get("flags", ()))
             tag = "%s-%s" % (prop, os.path.basename(exe))
